@@ -20,8 +20,9 @@
 (*   "cancel-in-cb-skips-cleanup"  cancellation while a done-callback is suspended skips the   *)
 (*                                 whole cleanup                                               *)
 (*   "cancel-unstarted-typeerror"  task.cancel(t) before t's first step raises TypeError       *)
-(*   "svc-addcb-keyerror"          task.add_done_callback on a service-started task raises     *)
-(*                                 KeyError (run_coro gets no ast_ctx: no task2cb entry)       *)
+(*   "svc-addcb-keyerror"          task.add_done_callback / remove_done_callback on a service- *)
+(*                                 started task raise KeyError (run_coro gets no ast_ctx: no   *)
+(*                                 task2cb entry)                                              *)
 (*   "deco-killme-claims"          @task_unique(n, kill_me=True), legacy subsystem: the check  *)
 (*                                 is made when the trigger fires, the claim at the task's     *)
 (*                                 first step is made WITHOUT kill_me: of two same-instant      *)
@@ -281,9 +282,10 @@ OpAddCb(t, v, f, a) ==    \* one entry per callback function, a later add overwr
 
 OpRmCb(t, v, f) ==
   /\ CanOp(t, "rmcb") /\ Count(t) /\ CbTarget(t, v)        \* removing an unregistered function: no effect
-  /\ cbs' = [cbs EXCEPT ![v][f] = 0]
-  /\ UNCHANGED <<flags, cur, st, phase, nenv, ctxOf, kind, deco, pend, rq, rbusy, n2t, t2n, ours, cbKeys,
-                 ctxKeys, ran, ranArg, cbcur, cbstop, outcome, waitOn, hist>>
+  /\ IF kind[v] = "svc" /\ Has("svc-addcb-keyerror") THEN ApiError(t, "rmcb")
+     ELSE /\ cbs' = [cbs EXCEPT ![v][f] = 0] /\ UNCHANGED <<st, cur, phase, outcome, apiErr, rq>>
+  /\ UNCHANGED <<flags, nenv, ctxOf, kind, deco, pend, rbusy, n2t, t2n, ours, cbKeys, ctxKeys, ran, ranArg,
+                 cbcur, cbstop, waitOn, lastClaim, claimed, kmBad, crossKill, exitCancelled>>
 
 OpWait(t, v) ==           \* task.wait({v}): asyncio.wait always suspends, also for a done task
   /\ CanOp(t, "wait") /\ Count(t) /\ t \in Task /\ v \in Task /\ v # t /\ st[v] # "absent"
